@@ -520,7 +520,7 @@ def g1_captured_state(ctx: Ctx):
             for c in m.cases:
                 if c.guard is None and any(isinstance(s, ast.Return) for s in c.body):
                     data_kinds |= {dotted(p.cls) or '' for p in ast.walk(c.pattern) if isinstance(p, ast.MatchClass)}
-        data_kinds -= {'Foreign', 'RealFloat', 'int', 'float'}          # a wrapped foreign object is not data; the last three are converted to Float
+        data_kinds -= {'RealFloat', 'int', 'float'}          # converted to Float.  (A wrapped foreign object counts: a helper function rebound since is a stale value like any other)
         native = {'list': [], 'tuple': (), 'bool': True}
         for g in [f for gen in dc.generators for f in gen.ifs]:
             missed = []
@@ -621,9 +621,11 @@ MUTANTS = [
            'seeded change C18d: inlining a callee with no locals rewrites the callee\'s own `return`'),
     Mutant('inliner-renames-only-when-there-is-something-to-rename', 'fpy2/transform/func_inline.py', "        ast = RenameTarget.apply(ast, subst)\n", "        if subst:\n            ast = RenameTarget.apply(ast, subst)\n", 'C18.E4'),
     Mutant('lifted-bindings-stored-into-the-given-function', 'fpy2/transform/lift_context.py', "        func = super()._visit_function(func, ctx)\n        # prepend variable bindings", "        super()._visit_function(func, ctx)\n        # prepend variable bindings", 'C18.E4'),
-    Mutant('captured-tuples-not-refreshed', BYTE, "            if not isinstance(fn.__globals__.get(str(var)), Foreign)", "            if isinstance(fn.__globals__.get(str(var)), list)", 'C18.G1',
+    Mutant('captured-tuples-not-refreshed', BYTE, "            for var in func.ast.free_vars\n        }\n", "            for var in func.ast.free_vars\n            if isinstance(fn.__globals__.get(str(var)), list)\n        }\n", 'C18.G1',
            'seeded change C18a: a store into a list held by a captured tuple survives the call'),
-    Mutant('captured-scalars-as-first-found', BYTE, "            if not isinstance(fn.__globals__.get(str(var)), Foreign)", "            if isinstance(fn.__globals__.get(str(var)), list | tuple)", 'C18.G1',
+    Mutant('captured-helpers-as-first-found', BYTE, "            for var in func.ast.free_vars\n        }\n", "            for var in func.ast.free_vars\n            if not isinstance(fn.__globals__.get(str(var)), Foreign)\n        }\n", 'C18.G1',
+           'finding F120 before its repair: after helper = plus_hundred a function evaluated before still calls plus_one'),
+    Mutant('captured-scalars-as-first-found', BYTE, "            for var in func.ast.free_vars\n        }\n", "            for var in func.ast.free_vars\n            if isinstance(fn.__globals__.get(str(var)), list | tuple)\n        }\n", 'C18.G1',
            'finding F88 before its repair: after K = 3.0 a function evaluated before multiplies by 2.0, its never-evaluated twin by 3.0'),
     Mutant('active-context-in-global', BYTE, "        ctx = self._func_ctx(func.ast, ctx)\n        if convert:", "        global _ACTIVE_CTX\n        _ACTIVE_CTX = ctx = self._func_ctx(func.ast, ctx)\n        if convert:", 'C18.E1'),
     Mutant('engine-registered-lazily', 'fpy2/ops.py', "def _normalize(x: Float | Fraction, ctx: Context, args: tuple[Float | Fraction, ...] = ()):\n", "def _normalize(x: Float | Fraction, ctx: Context, args: tuple[Float | Fraction, ...] = ()):\n    from .number.engine import register_engine, RealEngine\n    register_engine(RealEngine.instance())\n", 'C18.E1'),
@@ -647,8 +649,8 @@ MUTANTS = [
     Mutant('captured-list-refreshed-in-the-shared-namespace', BYTE, "        if captured:\n            call = types.FunctionType(\n                fn.__code__, {**fn.__globals__, **captured},\n                fn.__name__, fn.__defaults__, fn.__closure__,\n            )\n            call.__kwdefaults__ = fn.__kwdefaults__\n            fn = call\n",
            "        for name, value in captured.items():\n            fn.__globals__[name] = value\n", 'C18.G1',
            'finding F64 before its repair: every evaluation of the function under way sees the same lists'),
-    Mutant('captured-list-refreshed-only-at-boundary', BYTE, "            for var in func.ast.free_vars\n            if not isinstance(fn.__globals__.get(str(var)), Foreign)\n        }",
-           "            for var in func.ast.free_vars\n            if not isinstance(fn.__globals__.get(str(var)), Foreign)\n        } if convert else {}", 'C18.G1'),
+    Mutant('captured-list-refreshed-only-at-boundary', BYTE, "            for var in func.ast.free_vars\n        }\n",
+           "            for var in func.ast.free_vars\n        } if convert else {}\n", 'C18.G1'),
     Mutant('own-namespace-without-the-fresh-lists', BYTE, "                fn.__code__, {**fn.__globals__, **captured},", "                fn.__code__, {**fn.__globals__},", 'C18.G1'),
     Mutant('mpfr-precision-set-globally', GMPUTILS, "    with gmp.context(\n        precision=prec,", "    gmp.get_context().precision = prec\n    with gmp.context(\n        precision=prec,", 'C18.G1'),
 ]
